@@ -318,7 +318,14 @@ class AsynchronousDeferredRunTest(_DeferredRunTest):
             d = defer.maybeDeferred(f, *args, **kwargs)
             try:
                 yield d
-            except Exception:
+            except GeneratorExit:
+                # The chain was abandoned (timeout, interrupt) and this
+                # generator is being closed: do not run anything more.
+                raise
+            except BaseException:
+                # Not just Exception: a KeyboardInterrupt or SystemExit from
+                # a cleanup must not abandon the remaining cleanups, nor be
+                # lost (RunTest._run_user catches BaseException too).
                 exc_info = sys.exc_info()
                 self.case._report_traceback(exc_info)
                 last_exception = exc_info[1]
